@@ -326,6 +326,14 @@ Theorem C09_check_candidates_are_acceptable :
 Proof. exact cands_iff_acceptable. Qed.
 Print Assumptions C09_check_candidates_are_acceptable.
 
+(* the part of the candidates that is read off the input alone (the scripted first answer of a
+   relay that both strategies must ask, ready at grace + latency) needs no hypothesis on the log:
+   these are acceptable offers also when vouch never asked the relay or hung up on it *)
+Theorem C09_check_first_call_candidates_are_acceptable :
+  forall c i b, In (i, b) (first_cands c) -> acceptable (c_strat c) (c_relays c) i b.
+Proof. exact first_cands_acceptable. Qed.
+Print Assumptions C09_check_first_call_candidates_are_acceptable.
+
 Theorem C09_agree_gives_log : forall c, agree c = true -> strategy_runs c = true -> log_agrees c.
 Proof. exact agree_log. Qed.
 Print Assumptions C09_agree_gives_log.
